@@ -69,10 +69,16 @@ const (
 	ddGarbage
 	ddAbort
 	ddTooLarge
-	ddHollow // frames whose protobuf length fields announce more dial data than the frame carries
+	ddHollow    // frames whose protobuf length fields announce more dial data than the frame carries
+	ddTruncated // complete messages, then a last message whose OUTER length prefix announces more than follows, then CloseWrite
 )
 
-var ddNames = []string{"correct", "short", "tiny", "varied", "garbage", "abort", "too-large-message", "hollow"}
+var ddNames = []string{"correct", "short", "tiny", "varied", "garbage", "abort", "too-large-message", "hollow", "truncated-last-message"}
+
+// truncated last message: announced message lengths, and how much is still owed when it starts, relative to what the
+// complete message would have carried (0 = the truncated message would just complete the requirement)
+var truncLens = []int{8192, 4102, 1000, 206}
+var truncOwed = []int{0, 0, -100, 1, 2000, -3000}
 
 // stages at which the client resets the REQUEST stream (besides the dial-data scripts that abort)
 const (
@@ -97,6 +103,8 @@ type ddPlan struct {
 	after      int // short/tiny: 0 keep reading, 1 CloseWrite then read, 2 Reset; abort: 0/1 Close, 2 Reset
 	// hollow: sizeA = announced data length, sizeB = bytes really carried, exact = the outer (oneof) length is
 	// consistent with the frame (only the data length lies)
+	// truncated: sizeA = announced length of the last message, sizeB = bytes of its body that really follow (1..sizeA-1),
+	// deltaIdx = index into truncOwed
 }
 
 func (p ddPlan) String() string {
@@ -499,6 +507,34 @@ func (w *world) sendDialData(r *reqRec, s network.Stream) bool {
 		}
 		steps = append(steps, dd(8187+p.sizeB)) // message of more than 8192 bytes
 		fill(n, 4096, false)
+	case ddTruncated:
+		// complete well-formed messages until only what the last message would carry (+/- truncOwed) is owed ...
+		full := ddFrame(p.sizeA - 6) // a well-formed frame whose message is sizeA bytes long (sizeA >= 206)
+		owed := p.sizeA - 6 + truncOwed[p.deltaIdx]
+		if owed < 1 {
+			owed = 1
+		}
+		if owed > n {
+			owed = n
+		}
+		for left := n - owed; left > 0; {
+			k := 4096
+			if left < k+100 { // no message below the server's minimum size
+				k = left
+			}
+			if k > 8186 {
+				k = 8186
+			}
+			steps = append(steps, dd(k))
+			left -= k
+		}
+		// ... then the length prefix of the last message and only sizeB bytes of its body: credited with what is written
+		prefix := len(full) - p.sizeA
+		cut := prefix + p.sizeB
+		if cut >= len(full) {
+			cut = len(full) - 1
+		}
+		steps = append(steps, step{full[:cut], cut})
 	case ddHollow:
 		// as many frames as a server that believes the announced lengths would need; credited with what is
 		// really written (the whole frame)
@@ -533,6 +569,8 @@ func (w *world) sendDialData(r *reqRec, s network.Stream) bool {
 		}
 	}
 	switch p.mode {
+	case ddTruncated:
+		s.CloseWrite() // half-close in the middle of the message; the response (if any) is still read
 	case ddShort, ddTiny:
 		switch p.after {
 		case 1:
